@@ -969,11 +969,14 @@ class TextScale(Sub):
         if na:
             last = s.rfind('a')
             probes += [('SUBSTITUTE(xs,"a","Z",%d)' % na, s[:last] + 'Z' + s[last + 1:]), ('SUBSTITUTE(xs,"a","Z",%d)' % (na + 1), s)]
+        # n blank items and then one that is not (a sparsely filled column): nothing after the blanks may get lost
+        probes += [('CONCATENATE(xb)', 'x'), ('TEXTJOIN(",",TRUE,xb)', 'x'), ('TEXTJOIN(",",FALSE,xb)', ',' * n + 'x'),
+                   ('CONCATENATE("h",xb,xb)', 'hxx'), ('TEXTJOIN("-",TRUE,"h",xb,"t")', 'h-x-t'), ('LEN(CONCATENATE(xb,xl,xb))', len(''.join(items)) + 2)]
         if n <= 257:
             probes += [('CONCATENATE(%s)' % ','.join('"%s"' % x for x in items), ''.join(items)),
                        ('TEXTJOIN("-",TRUE,%s)' % ','.join('"%s"' % x for x in items), '-'.join(items))]
         out = []
-        vars_ = {'xs': s, 'xsp': ' ' * n, 'xl': items}
+        vars_ = {'xs': s, 'xsp': ' ' * n, 'xl': items, 'xb': [None] * n + ['x']}
         for f, want in probes:
             o = env.evo(f, vars_)
             if o != ['v', want]:
